@@ -879,6 +879,8 @@ class RealEqMacro(Macro):
         if len(goal.get_vars()) != 0:
             raise ConvException
         try:
+            if not (goal.is_equals() or goal.is_compares()) or goal.arg1.get_type() != RealType:
+                raise ConvException
             if goal.is_equals():
                 if real_eval(goal.lhs) == real_eval(goal.rhs):
                     return Thm(Eq(goal, true))
